@@ -404,6 +404,9 @@ func main() {
 	}
 	r := report.New("C01")
 	V := val.All()
+	if r.Thorough() {
+		V = val.Thorough()
+	}
 	var names, litNames []string
 	for _, v := range V {
 		names = append(names, v.Name)
